@@ -130,7 +130,8 @@ def _param_is_read_only(fn: ast.FunctionDef, param: str, parents) -> tuple[bool,
 
 
 def keys_census(trees: dict[str, ast.Module], attr: str = '_keys', owner: str = 'Entity',
-                register_fn: str = '__setitem__', special_key: str = 'nodeid'):
+                register_fn: str = '__setitem__', special_key: str | None = 'nodeid',
+                occ_filter=None, rebind_ok=None, validated_store_fns: dict[str, int] | None = None):
     """Rows (function, description, site class, ok) for every place that can put a key into `<x>.<attr>`, and the
     list of exposures.  Site classes: 'KwCtor' (constructor / copy / parse of the owner class), 'KwSetitem' (the
     registration function itself), 'KwOther'."""
@@ -144,7 +145,9 @@ def keys_census(trees: dict[str, ast.Module], attr: str = '_keys', owner: str = 
             where = f'{cls}.{fn.name}' if cls else fn.name
             site = 'KwCtor' if cls == owner and fn.name in ('__init__', 'copy', 'parse') else \
                    'KwSetitem' if cls == owner and fn.name == register_fn else 'KwOther'
-            occs: list[ast.AST] = [n for n in ast.walk(fn) if isinstance(n, ast.Attribute) and n.attr == attr]
+            occs: list[ast.AST] = [n for n in ast.walk(fn) if isinstance(n, ast.Attribute) and n.attr == attr
+                                   and (occ_filter is None or occ_filter(cls, n))]
+            n_validated = 0
             aliases: set[str] = set()
             k = 0
             while k < len(occs):
@@ -162,7 +165,11 @@ def keys_census(trees: dict[str, ast.Module], attr: str = '_keys', owner: str = 
                 elif what == 'store':
                     if site == 'KwSetitem':
                         rows.append((where, 'store inside the registration function', site, True, occ.lineno))
-                    elif isinstance(info, ast.Constant) and isinstance(info.value, str) and info.value.casefold() != special_key:
+                    elif cls == owner and validated_store_fns and fn.name in validated_store_fns:
+                        n_validated += 1
+                        rows.append((where, 'store validated by the shape recogniser of this function', site,
+                                     n_validated <= validated_store_fns[fn.name], occ.lineno))
+                    elif special_key is not None and isinstance(info, ast.Constant) and isinstance(info.value, str) and info.value.casefold() != special_key:
                         rows.append((where, f'store under the constant key {info.value!r}', site, True, occ.lineno))
                     else:
                         rows.append((where, f'store under `{ast.unparse(info)}` outside the registration function', site, False, occ.lineno))
@@ -171,8 +178,15 @@ def keys_census(trees: dict[str, ast.Module], attr: str = '_keys', owner: str = 
                 elif what == 'bulk':
                     rows.append((where, f'bulk write ({info})', site, False, occ.lineno))
                 elif what == 'rebind':
-                    rows.append((where, 'rebound to ' + ('an empty dictionary' if _is_empty_dict(info) else f'`{ast.unparse(info) if info is not None else "del"}`'),
-                                 site, _is_empty_dict(info), occ.lineno))
+                    verdict = rebind_ok(cls, fn, info) if rebind_ok is not None and not _is_empty_dict(info) else None
+                    if verdict == 'exempt':
+                        exposed.append(f'{where} (line {occ.lineno}): rebound from a trusted argument')
+                    elif verdict is True:
+                        rows.append((where, 'rebound to an index-preserving duplicate', site, True, occ.lineno))
+                    else:
+                        rows.append((where, 'rebound to ' + ('an empty dictionary' if _is_empty_dict(info) else
+                                                             f'`{ast.unparse(info)[:60] if info is not None else "del"}`'),
+                                     site, _is_empty_dict(info), occ.lineno))
                 elif what == 'return':
                     if cls == owner and fn.name == 'keys':
                         exposed.append(f'{where} (line {occ.lineno})')
@@ -218,3 +232,44 @@ def node_setitem_registers(vmf_tree: ast.Module, owner: str = 'Entity', register
                                 return True
                 return False
     raise TranslateError(f'{owner}.{register_fn} not found')
+
+
+# ------------------------------------------------------------------------------------------------ EntityFixup._fixup
+FIXUP_CLASSES_PREFIX = ('EntityFixup', '_EntityFixup')
+
+
+def fixup_occ(cls: str | None, node: ast.Attribute) -> bool:
+    """Is this `_fixup` attribute the index table of an EntityFixup (as opposed to Entity._fixup, the optional
+    EntityFixup object of an entity)?  Inside the EntityFixup classes, or `<x>._fixup._fixup` anywhere."""
+    if isinstance(node.value, ast.Attribute) and node.value.attr == '_fixup':
+        return True
+    return cls is not None and cls.startswith(FIXUP_CLASSES_PREFIX)
+
+
+def fixup_rebind_ok(cls: str | None, fn: ast.FunctionDef, value: ast.AST | None):
+    """`<new>._fixup = {key: FixupValue(val.var, val.value, val.id) for key, val in self._fixup.items()}` keeps every
+    index (True); a table built from the argument of __setstate__ is the pickled state ('exempt'); else False."""
+    if not isinstance(value, ast.DictComp) or len(value.generators) != 1 or value.generators[0].ifs:
+        return False
+    g = value.generators[0]
+    params = [a.arg for a in fn.args.posonlyargs + fn.args.args][1:]
+    if fn.name == '__setstate__' and isinstance(g.iter, ast.Name) and g.iter.id in params:
+        return 'exempt'
+    if not (isinstance(g.target, ast.Tuple) and len(g.target.elts) == 2 and all(isinstance(e, ast.Name) for e in g.target.elts)):
+        return False
+    k, v = (e.id for e in g.target.elts)
+    if ast.unparse(g.iter) != 'self._fixup.items()' or not (isinstance(value.key, ast.Name) and value.key.id == k):
+        return False
+    val = value.value
+    if isinstance(val, ast.Name) and val.id == v:
+        return True
+    if isinstance(val, ast.Call) and isinstance(val.func, ast.Name) and val.func.id == 'FixupValue':
+        idarg = val.args[2] if len(val.args) > 2 else next((kw.value for kw in val.keywords if kw.arg == 'id'), None)
+        return idarg is not None and ast.unparse(idarg) == f'{v}.id'
+    return False
+
+
+def fixup_census(trees: dict[str, ast.Module]):
+    """Every place that can put a value into the index table of an EntityFixup."""
+    return keys_census(trees, attr='_fixup', owner='EntityFixup', register_fn='__setitem__', special_key=None,
+                       occ_filter=fixup_occ, rebind_ok=fixup_rebind_ok, validated_store_fns={'__init__': 1})
